@@ -5,6 +5,7 @@ import Xo.Lemmas.Path
 import Xo.Props.C11
 import Xo.Props.C04
 import Xo.Lemmas.RefGraphOps
+import Xo.Lemmas.RefGraphX
 /-! C08 — references alias, null and survive buffer growth as documented (property theorems only).
 Slot-level theorems for every slot address, target address and memory; the fresh-and-disjoint placement of referents created
 from plain data or foreign objects is the allocator theorem C04_alloc.  The history-level invariant "every non-null reference
@@ -292,6 +293,20 @@ theorem C08_bind_null (u : RG.Univ) (s : RG.St) (hi : RG.Inv u s) (ha k : Nat) (
 example : deref (writeAt (List.replicate 64 0xA5) 8 (refBytes 8 40)) 8 = some 40 := by decide
 example : deref (writeAt (List.replicate 64 0xA5) 40 (refBytes 40 8)) 40 = some 8 := by decide
 
+/-- **two buffers.**  Histories that interleave any operations inside buffer A, any operations inside buffer B, and copy
+constructions of a node of one buffer into the other (`Cls(h, _buffer=other)`: the node and everything it refers to is duplicated
+there - a reference never leaves its buffer): in every reachable pair of states BOTH buffers satisfy the reference invariant - every
+non-null reference of every live node resolves to a live node of the recorded class inside ITS OWN buffer.  (Copies whose recursion
+does not end - cyclic sources - are no-ops of the model for every fuel; the library raises RecursionError.) -/
+theorem C08_two_buffer_history (u : RG.Univ) (hu : RG.UWF u) (fuel capA kA capB kB : Nat) (gsA gsB : Option Nat) (ops : List RG.Op2)
+    (hcA : (ops.foldl (RG.step2 u fuel) ⟨RG.initSt capA (2 ^ kA) gsA, RG.initSt capB (2 ^ kB) gsB⟩).a.b.a.capacity < 2 ^ 62)
+    (hcB : (ops.foldl (RG.step2 u fuel) ⟨RG.initSt capA (2 ^ kA) gsA, RG.initSt capB (2 ^ kB) gsB⟩).b.b.a.capacity < 2 ^ 62) :
+    RG.Inv u (ops.foldl (RG.step2 u fuel) ⟨RG.initSt capA (2 ^ kA) gsA, RG.initSt capB (2 ^ kB) gsB⟩).a ∧
+    RG.Inv u (ops.foldl (RG.step2 u fuel) ⟨RG.initSt capA (2 ^ kA) gsA, RG.initSt capB (2 ^ kB) gsB⟩).b := by
+  have hm := RG.fold2_cap u fuel ops ⟨RG.initSt capA (2 ^ kA) gsA, RG.initSt capB (2 ^ kB) gsB⟩
+  exact RG.history2_inv hu fuel ops _ (RG.init_inv u capA kA gsA (Nat.lt_of_le_of_lt hm.1 hcA))
+    (RG.init_inv u capB kB gsB (Nat.lt_of_le_of_lt hm.2 hcB)) hcA hcB
+
 /-! non-vacuity of the history theorems: a concrete universe and history (aliasing, growth while references exist, a write through a
 reference, a value bound to a union reference, a null) meets the hypotheses, and the reference slots read as claimed -/
 namespace RGEx
@@ -310,6 +325,12 @@ example : UWF exU := by
 example : exS.b.a.capacity = 278 ∧ exS.b.a.capacity < 2 ^ 62 := by decide +kernel
 example : readRef exS (.uref [0, 1]) 32 = (some 128, 0) ∧ readRef exS (.ref 1) 56 = (none, 0) ∧
     readRef exS (.ref 0) 24 = (some 0, 0) ∧ fromLE (readAt exS.b.mem 16 8) = 44 ∧ exS.live.length = 5 := by decide +kernel
+/-- two buffers: the node at 32 of the state above (a union reference to the node at 128, a null reference) is copied into a second,
+empty buffer; then a node is built there and copied back -/
+def exOps2 : List Op2 := exOps.map .inA ++ [.copyAB 32, .inB (.new 0 [3, 4]), .copyBA 48, .copyAB 16]
+def exS2 : St2 := exOps2.foldl (step2 exU 9) ⟨initSt 64 (2 ^ 3) none, initSt 0 (2 ^ 4) (some 24)⟩
+example : exS2.a.b.a.capacity < 2 ^ 62 ∧ exS2.b.b.a.capacity < 2 ^ 62 ∧ exS2.b.live.length = 5 ∧ exS2.a.live.length = 6 ∧
+    readRef exS2.b (.uref [0, 1]) 0 = (some 32, 0) ∧ readRef exS2.b (.ref 0) 72 = (some 80, 0) := by decide +kernel
 end RGEx
 
 end Lay
